@@ -159,6 +159,24 @@ def compile_emitted(check):
                 check.extra_violations.append(("%s:emitted-text-does-not-compile:%s" % (check.prop, cxx), wrapper))
 
 
+def disp_post(check):
+    """tier B half of a tier-A check: generated programs with real classes (single / multiple /
+    virtual inheritance), std_rtti, every registration style and API (macros, add_function,
+    containers with next), stock and derived policies; the programs check themselves against a
+    Python port of the oracle; only failures whose key belongs to this property are reported"""
+    import gen_disp
+    import tierb
+    from vfcheck import base_seed
+    seed = base_seed() % 100000 + sum(map(ord, check.prop))
+    progs = gen_disp.programs(check.tier, seed, focus=check.prop)
+    tierb.run_programs(check, progs, max_parallel=12, only_prefix=check.prop)
+    check.extra_evidence["tier_b_programs"] = len(progs)
+    check.rule += ("; plus tier B: %d generated programs with real class hierarchies (virtual inheritance where a base is "
+                   "reachable by two paths), std_rtti, registration styles one / split / direct / mixed, macro / "
+                   "add_function / container APIs, default / map / indirect / throw / debug policies, self-checked "
+                   "against a Python port of the oracle" % len(progs))
+
+
 def clean_emit(check):
     import os, shutil
     emit = os.path.join(check.outdir, "emit")
@@ -189,6 +207,8 @@ def harness_plan(prop, tier, quick, thorough, min_eval=1000, policy=None, extra=
     """quick / thorough: list of (flavour, processes, cases per process)"""
     c = Check(prop, tier, RULES[prop], level=level, assumptions=COMMON_ASSUMPTIONS + (assumptions or []),
               min_evaluations=min_eval)
+    if prop in ("C01", "C02", "C03", "C08", "C15", "C17"):
+        c.post = disp_post
     spec = quick if tier == "quick" else thorough
     k = 0
     for flavour, procs, cases in spec:
@@ -252,7 +272,14 @@ def plan(prop, tier):
         return c
     if prop == "C11":
         import gen_c11
-        return tierb_plan(prop, tier, gen_c11, min_eval=200)
+        c = tierb_plan(prop, tier, gen_c11, min_eval=200)
+        inner = c.run
+
+        def run():
+            disp_post(c)
+            return inner()
+        c.run = run
+        return c
     if prop == "C20":
         import gen_c20
         return tierb_plan(prop, tier, gen_c20, min_eval=50, max_parallel=8)
